@@ -205,6 +205,18 @@ def run_case(case):
                 obs["traj_t"] = tt
                 obs["traj_x"] = dd_
                 obs["complete"] = done
+                # every way of reading the output carries the requested units with its numbers: the per-cell and the merged
+                # (summed over cells) trajectory of a species mean, in SI, what the data array means
+                S_, n_ = len(desc["species"]), gen.ncells(desc["space"])
+                s_pick = gen.rng_for(sd, "C04merge", idx, k).randrange(S_)
+                mg = out.get_trajectory(s_pick, merge=True)
+                mg_si, mg_dim = to_si_state(mg)
+                want_mg = dd_.reshape(len(tt), S_, n_)[:, s_pick, :].sum(axis=1)
+                cnt("merged_output_checks")
+                if mg_dim != (0, 0, 1) or not np.all(np.abs(mg_si - want_mg) <= 1e-9 * (np.abs(dd_.reshape(len(tt), S_, n_)[:, s_pick, :]).sum(axis=1) + 1e-300)):
+                    bad.append({"what": "the merged trajectory (units and numbers together) is not the sum over cells of the data array", "rendering": k,
+                                "species": s_pick, "merged_units": [si.sys_of(mg.units.sys)[2]], "data_units": [si.sys_of(out.data.units.sys)[2]],
+                                "got_SI_head": mg_si[:3].tolist(), "expected_SI_head": want_mg[:3].tolist(), **ctx})
         except Exception as e:
             bad.append({"what": "euler run raised on a valid rendering", "rendering": k, "error": "%s: %s" % (type(e).__name__, e), **ctx})
         # --- a stochastic engine works in molecules internally: its output must still come back in the requested units ---
